@@ -865,6 +865,9 @@ func (o *object) extReady() bool {
 }
 
 func (o *object) recvReady() bool {
+	if o.kind == "ticker" {
+		return true // in a select a tick is always eventually there
+	}
 	if o.external {
 		return o.extReady()
 	}
@@ -885,6 +888,10 @@ func (t *thread) observe(o *object) {
 
 // doRecv performs a receive on a ready channel for thread t.
 func (s *Sched) doRecv(t *thread, o *object) (v any, ok bool) {
+	if o.kind == "ticker" {
+		t.mutated = true
+		return frozen, true
+	}
 	if o.external {
 		// closed external channel
 		t.observe(o)
@@ -998,6 +1005,13 @@ func Recv2[T any](ch <-chan T) (T, bool) {
 	o := s.chanObj(ch)
 	t := s.cur
 	var zero T
+	if o.kind == "ticker" {
+		Sleep(time.Millisecond)
+		if v, ok := any(frozen).(T); ok {
+			return v, true
+		}
+		return zero, true
+	}
 	var rv any
 	var rok bool
 	s.point(&op{
@@ -1235,6 +1249,23 @@ func Since(t time.Time) time.Duration {
 		return time.Since(t)
 	}
 	return 0
+}
+
+// TimeTick replaces time.Tick.  Controlled: a non-positive period gives a nil channel (as in Go: receiving from it
+// blocks for ever); otherwise a modelled ticker - receiving from it is a Sleep of one period (fair yield / park).
+func TimeTick(d time.Duration) <-chan time.Time {
+	s := active
+	if s == nil {
+		return time.Tick(d)
+	}
+	if d <= 0 {
+		return nil
+	}
+	ch := make(chan time.Time)
+	v, p := chanPtr(ch)
+	s.nextObj++
+	s.objs[p] = &object{id: s.nextObj, kind: "ticker", ch: v}
+	return ch
 }
 
 // Sleep replaces time.Sleep.  Controlled: a fair yield.  After a loop iteration that
